@@ -256,6 +256,16 @@ where
 
                 if di == 0 {
                     self.vmp_apply_dft_to_dft(&mut res_dft, &a_dft, &ggsw.data, 0, scratch_2);
+                    // The truncated first product does not write the last `dsize - 2` limbs, but the following
+                    // digits accumulate into them: they must not keep whatever the caller's buffer held
+                    // (cmux takes res_dft from scratch without zeroing it).
+                    let written: usize = res_dft.size();
+                    res_dft.set_size(ggsw.size());
+                    for col in 0..cols {
+                        for j in written..ggsw.size() {
+                            res_dft.zero_at(col, j);
+                        }
+                    }
                 } else {
                     // Overwrite tmp with shifted product, then fold into res_dft.
                     res_dft_tmp.set_size(res_dft.size());
